@@ -76,7 +76,7 @@ theorem regression_is_target_centre (chans : List (Chan α)) (centre : Nat → L
     (hc : predictSkip chans [t] W [x] = [some c]) :
     ∃ w, W[c]? = some w ∧
       predictRegression chans centre [t] W x =
-        some [centre (normIdx chans.length t).toNat (slice (widths chans) (normIdx chans.length t).toNat w)] := by
+        some [centre (normIdx chans.length t).toNat (slice (wlens chans) (normIdx chans.length t).toNat w)] := by
   simp only [predictSkip, List.map_cons, List.map_nil, List.cons.injEq, and_true] at hc
   have hlt : c < W.length := by
     have := argmaxNp_lt_length hc
@@ -95,7 +95,7 @@ theorem regression_multi_as_written (chans : List (Chan α)) (centre : Nat → L
     predictRegression chans centre targets W x =
       allSome ((targets.map (normIdx chans.length)).map (fun k =>
         (((targets.map (normIdx chans.length))[k.toNat]?).bind (fun k' =>
-          (W[c]?).map (fun w => centre k'.toNat (slice (widths chans) k'.toNat w)))))) := by
+          (W[c]?).map (fun w => centre k'.toNat (slice (wlens chans) k'.toNat w)))))) := by
   simp only [predictSkip, List.map_cons, List.map_nil, List.cons.injEq, and_true] at hc
   exact predictRegression_multi chans centre targets W x hl hnn c hc
 
@@ -111,7 +111,7 @@ theorem regression_multi_partial (chans : List (Chan α)) (centre : Nat → List
     (c : Nat) (hc : predictSkip chans targets W [x] = [some c]) :
     predictRegression chans centre targets W x =
       (W[c]?).map (fun w => (targets.map (normIdx chans.length)).map
-        (fun k => centre k.toNat (slice (widths chans) k.toNat w))) := by
+        (fun k => centre k.toNat (slice (wlens chans) k.toNat w))) := by
   simp only [predictSkip, List.map_cons, List.map_nil, List.cons.injEq, and_true] at hc
   exact predictRegression_multi_pos chans centre targets W x hl hnn hpos c hc
 
@@ -153,7 +153,7 @@ end Join
 /-! ### Counterexamples (ℚ, FuzzyART channels alpha = 1/4, beta = 1) and non-vacuity -/
 
 private def ch3 : List (Chan Rat) :=
-  [⟨fuzzyKernel (1/4) 1 1, 2, 1/2⟩, ⟨fuzzyKernel (1/4) 1 1, 2, 1/4⟩, ⟨fuzzyKernel (1/4) 1 1, 2, 1/4⟩]
+  [⟨fuzzyKernel (1/4) 1 1, 2, 1/2, 2⟩, ⟨fuzzyKernel (1/4) 1 1, 2, 1/4, 2⟩, ⟨fuzzyKernel (1/4) 1 1, 2, 1/4, 2⟩]
 private def W3 : List (List Rat) :=
   [[0, 1, 0, 1, 0, 1], [1, 0, 1, 0, 1, 0], [1/4, 3/4, 1/2, 1/2, 3/4, 1/4]]
 private def cen : Nat → List Rat → List Rat := fun _ => fuzzyCentre
